@@ -28,16 +28,16 @@ CLAIMS = {
    text="Framing.tla bounds the iterator's allocation by the bytes present for every tail (the pinned allocate-what-is-claimed config is refuted). Garbage headers of all size classes (key 0..65535, value 0..2^31-1, both types, 0-5000 trailing bytes) are placed after the last valid record; the recovering Open of the real code is measured and TLC checks allocation <= 32 x bytes on disk + 1 MiB together with the C08 outcome.",
    note="Allocation is runtime.MemStats.TotalAlloc measured in-process; constants calibrated on the repaired tree (0.3-0.43 MB).", ref="4.4, 6 (C19), 8"),
  "C13": dict(cat="model_checking", tech="TLC model check of spec/LockProto.tla (system-call interleavings) + TLC linearizability validation (spec/TraceLock.tla) of enumerated real schedules driven through yield hooks",
-   text="LockProto.tla models stat/open/flock/verify/unlink/close and process death of 3 processes x 2 rounds exhaustively (AtMostOneHolder, NoLeak hold for the repaired protocol; the pinned protocol is refuted; MustRecover is refuted = known finding D5c). The real lock code is driven through enumerated interleavings of its system-call steps (2-3 openers with a closing or dying holder) on a real directory via the verif yield hooks, and every schedule's results are validated by TLC as a linearizable lock object. Database-level session chains (clean/unclean ends, competing Opens) are validated against Layer A.",
+   text="LockProto.tla models stat/open/flock/verify/unlink/close and process death of 3 processes x 2 rounds exhaustively (AtMostOneHolder, NoLeak hold for the repaired protocol; the pinned protocol is refuted; MustRecover is refuted = known finding D5c). The real lock code is driven through enumerated interleavings of its system-call steps (2-3 openers with a closing or dying holder) on a real directory via the verif yield hooks, and every schedule's results are validated by TLC as a linearizable lock object. Database-level session chains (clean/unclean ends, competing Opens, Open attempts that fail with an injected transient file-system error before the next successful Open) are validated against Layer A.",
    note="Processes are goroutines (flock conflicts between open file descriptions within a process); only the unix lock code is exercised. Known finding D5c is listed in known_findings.json.", ref="4.3, 6 (C13)"),
  "C07": dict(cat="model_checking", tech="TLC linearization search (silent Lin steps, just-in-time placement) over recorded concurrent histories against Layer A",
    text="Free-running concurrent histories of the real code (2-3 writers/readers on hot keys plus a goroutine running Compact, Sync, Backup, scans, Count, FileSize, Metrics, optionally the background workers; all four file systems) and hook-forced interleavings with compaction are recorded with real-time-ordered invocation/response events; TLC searches for linearization points against the sequential map of Layer A and rejects a history only if no order explains the results. Quiescent read-backs at barriers and after the final clean reopen are compared exactly.",
    note="Trusts TLC and the event stamping (one mutex around event emission; inv before the call, ret after). Bounded concurrency (<= 4 overlapping calls) keeps the search finite in practice.", ref="6 (C07)"),
  "C10": dict(cat="model_checking", tech="Layer-A trace validation of -race stress recordings incl. Close races; race/fault/stuck/leak observations are events no spec action accepts",
-   text="The harness is built with the Go race detector and runs workers, a maintenance goroutine and the background workers on fs.Mem, fs.OS and fs.OSMMap, with Close fired at random points; panics/faults, 60 s without progress, goroutines left inside pogreb after Close, race reports and a dying process enter the recording as events that Layer A never accepts. TLC additionally validates that calls overlapping Close fail or have a legal linearized effect and that the directory reopens with exactly the linearized contents.",
+   text="The harness is built with the Go race detector and runs workers, a maintenance goroutine and the background workers on fs.Mem, fs.OS and fs.OSMMap, with Close fired at random points; panics/faults, 60 s without progress, goroutines left inside pogreb after Close (also deterministically: a background compaction parked at its first yield point while Close is called), race reports and a dying process enter the recording as events that Layer A never accepts. spec/Locks.tla checks the lock discipline at design level (no deadlock, termination, Close waits for the worker). TLC additionally validates that calls overlapping Close fail or have a legal linearized effect and that the directory reopens with exactly the linearized contents.",
    note="Data races and memory faults are outside TLA+: they are observed by the race detector / fault handler on the schedules run; completeness is that of those schedules. Deadlock freedom likewise by watchdog on these schedules.", ref="6 (C10), 8"),
  "C02": dict(cat="model_checking", tech="TLA+ Layer-A trace validation (TLC) of session-cut histories incl. fs.OS/fs.OSMMap alternation; TLC model check of spec/Wal.tla (Close/OpenClean)",
-   text="Random histories over colliding keys are cut into sessions by Close/Open at random positions on all four file systems, half of them alternating fs.OS and fs.OSMMap on one directory; every reopen is observed (contents, Count, Has, Items, recovery indicator) and validated by TLC against Layer A's OpenClean. The Wal model checks Close/OpenClean with persisted metadata exhaustively within its bounds; the pinned 'reuse any unfilled segment' config must be refuted.",
+   text="Random histories over colliding keys are cut into sessions by Close/Open at random positions on all four file systems (session patterns: compaction-only sessions, sessions that leave the counts unchanged, bursts of new keys after a restart, empty-then-refill; half of the programs with pogreb's own random hash seeds), half of them alternating fs.OS and fs.OSMMap on one directory; every reopen is observed (contents, Count, Has, Items, recovery indicator) and validated by TLC against Layer A's OpenClean. The Wal model checks Close/OpenClean with persisted metadata exhaustively within its bounds; the pinned 'reuse any unfilled segment' config must be refuted.",
    note="Trusts TLC and the harness; recovery indicator = pogreb's log output of that Open.", ref="6 (C02)"),
  "C05": dict(cat="model_checking", tech="TLC model check of spec/Wal.tla (writers interleaved with Pick/Seal/Step/Remove, crashes) + Layer-A trace validation of hook-scheduled interleavings with crash images",
    text="The Wal model interleaves Put/Del with every step of compaction and with crashes exhaustively within bounds (Represents, ReplayOK); the pinned pick-then-seal config must be refuted. On the real code writers are injected through the verif yield hook at random subsets of all yield points of Compact (after the pick, before each seal, before every record, before each removal), with crash images at every mutating file-system call inside and outside Compact; TLC validates the recordings against Layer A.",
@@ -46,7 +46,7 @@ CLAIMS = {
    text="Quiescent scans are exact in LHIndex for every hash assignment and in every read-back of the recorded histories; concurrent scans are stepped call by call between engineered puts (splits under the cursor), deletes and compaction, and TLC validates truthfulness and completeness for untouched keys against Layer A's scan bookkeeping.",
    note="Trusts TLC and the harness. Interleavings are at Next-call granularity (each Next holds the read lock for its whole duration in the code).", ref="6 (C11)"),
  "C12": dict(cat="model_checking", tech="Layer-A trace validation (TLC) of Backup calls with writers hook-scheduled into every gap of Backup",
-   text="Writers (with rollover) are injected at the yield points of Backup (after the capture, before each segment copy, before the lock file), every backup is opened by the real code and read back; TLC validates that the backup equals the contents at one instant between call and return (Backup's Lin step) and that the source is unaffected.",
+   text="Writers (with rollover, in bursts) are injected at the yield points of Backup (after the capture, before each segment copy, before the lock file), and free-running histories take backups while writers and a compactor keep running; every backup is opened by the real code and read back; TLC validates that the backup equals the contents at one instant between call and return (Backup's Lin step) and that the source is unaffected.",
    note="Trusts TLC and the harness; the maintenance lock excludes compaction during Backup by construction (checked in C10's concurrent runs).", ref="6 (C12)"),
  "C01": dict(cat="model_checking", tech="TLC model check of spec/LHIndex.tla (every hash assignment) + TLA+ Layer-A trace validation of recordings over engineered colliding keys",
    text="The linear-hashing index is specified in spec/LHIndex.tla and checked exhaustively by TLC for every assignment of hashes to 4-5 keys (C=2 and C=3 slots per bucket, up to 9 operations: Represents, CountOK, ScanExact, WellFormed, SplitMovesForward); the pinned findInsertionBucket config must be refuted. The real code is then driven through random histories over ~80 keys engineered (pinned seed) to share low hash bits and full 32-bit hashes, on crashfs, fs.Mem, fs.OS and fs.OSMMap with small segments, compaction and clean restarts; every result and periodic full read-backs (Get, Has, Count, Items) are validated by TLC against the sequential map of Layer A.",
@@ -64,6 +64,19 @@ CLAIMS = {
    text="Power-loss images from the return of every Close to the end of the next Open (all files relevant since no lock file remains) are reopened by the real code in both sync modes; TLC validates them against Layer A with the durable floor set to everything at ret(Close).",
    note="Same trusted base as C06.", ref="6 (C09)"),
 }
+
+STRICT = (" Strict-mode recordings additionally log the projected implementation state after every call (every segment with its records, the whole index bucket by bucket); "
+          "TLC checks them against Layer B: spec/TraceWal.tla (invariants of Wal.tla on every observed state, post-conditions of Put/Del/Compact on every step) and spec/TraceLH.tla "
+          "(LHIndex.tla run in lockstep with C=31: the real index must equal the model's bucket for bucket, slot for slot, free list included; a clean restart restores it exactly). "
+          "A mismatch there is reported as DRIFT in the evidence and never as a violation.")
+CLAIMS["C01"]["text"] += STRICT
+CLAIMS["C02"]["text"] += STRICT
+CLAIMS["C01"]["tech"] += "; strict-mode conformance of the real index and log with Layer B (TraceLH.tla lockstep, TraceWal.tla)"
+CLAIMS["C12"]["text"] += (" Layer B: spec/WalBackup.tla models Backup at the grain of backup.go (capture of the segment list and append offsets in one read-locked section, lock-free copies, lock file) interleaved with writers, rollover and crashes; "
+                          "TLC checks that the finished copy replays to the contents at the capture and that the copy never fails, and refutes three variants (copy active segments whole, no maintenance lock, list taken after the offsets).")
+CLAIMS["C12"]["tech"] = "TLC model check of spec/WalBackup.tla (Backup interleaved with writers; three variants refuted) + " + CLAIMS["C12"]["tech"]
+CLAIMS["C17"]["text"] += (" Simulated unclean shutdowns append garbage to, or cut bytes off, the newest segment (then TLC requires the contents replayed by the independent decoder: Layer A's DamagedOpened), "
+                          "or truncate it inside its header (outcome compared across file systems only).")
 NA_REASON = "not claimed"
 
 hooks = subprocess.run(["git", "-C", "/repo", "log", "--format=%H %s"], capture_output=True, text=True).stdout.splitlines()
